@@ -66,8 +66,9 @@ def _factory(params, env=None, monitor=None):
         h.monitors.append(NoDownload())
         try:
             first = params.get("first")
+            prefix = params.get("prefix") or ([first] if first else [])
             for k in range(params["nact"]):
-                a = first if (k == 0 and first) else ACTIONS[e.choose("action", len(ACTIONS))]
+                a = prefix[k] if k < len(prefix) else ACTIONS[e.choose("action", len(ACTIONS))]
                 tag = b"%d" % k
                 n0 = len(lab.calls)
                 try:
@@ -226,6 +227,10 @@ def jobs(tier):
                 if q:
                     p["slotmode"] = "round"
                 out.append({"harness": "smart", "params": p, "label": "%s/%s/3-actions/first=%s" % (f, "auto-b" if auto else "no-predicate", a)})
+        # request / un-request / ... : re-request after un-request needs four actions
+        for pre in (["request-path", "unrequest"], ["request-id", "unrequest"]):
+            out.append({"harness": "smart", "params": {"flavour": f, "auto": False, "nact": 4 if q else 5, "slots": 1, "slotmode": "round", "prefix": pre},
+                        "label": "%s/no-predicate/%d-actions/prefix=%s" % (f, 4 if q else 5, "+".join(pre))})
     return out
 
 
